@@ -61,6 +61,23 @@ def make_cases(tier):
                 extra = r.choice(range(len(pool)))
                 prog = A.file([c03.probe_stanza(1, pool[a]), c03.probe_stanza(2, pool[b]), c03.probe_stanza(3, pool[extra])][: (2 if r.random() < 0.5 else 3)])
                 base.append(A.case("c08q-%d-%d-lazy" % (a, b), prog, r.choice([2, 3, 5, 6, 7, 8, 11, 14, 17]), "lazy"))
+    # many matches in progress at once: three stanzas pairing every statement of a 100-statement source with a later sibling;
+    # only the first one creates nodes, so losing matches of one stanza or another changes the graph
+    pair_q = next(q for q in pool if "(pass_statement) @end" in q["q"])
+    mk = lambda with_node: A.stanza(pair_q["q"], ([A.node(A.var("n")), A.attrn(A.var("n"), A.attr("of", A.cap("name")))] if with_node else [A.let(A.var("u"), A.cap("name"))]) + [A.let(A.var("w"), A.cap("end"))])
+    base.append(A.case("c08big-lazy", A.file([mk(True), mk(False), mk(False)]), A.big_source(), "lazy"))
+    # two nodes linked in both directions by different stanzas, with attributes on both edges
+    q_id = "(identifier) @id "
+    base.append(A.case("c08opp-lazy", A.file([
+        A.stanza(q_id, [A.node(A.svar(A.cap("id"), "a")), A.node(A.svar(A.cap("id"), "b"))]),
+        A.stanza(q_id, [A.edge(A.svar(A.cap("id"), "a"), A.svar(A.cap("id"), "b")), A.attre(A.svar(A.cap("id"), "a"), A.svar(A.cap("id"), "b"), A.attr("dir", A.string("ab")))]),
+        A.stanza(q_id, [A.edge(A.svar(A.cap("id"), "b"), A.svar(A.cap("id"), "a"))]),
+    ]), 2, "lazy"))
+    base.append(A.case("c08opp2-lazy", A.file([
+        A.stanza("(module) @m ", [A.node(A.svar(A.cap("m"), "a")), A.node(A.svar(A.cap("m"), "b")), A.edge(A.svar(A.cap("m"), "b"), A.svar(A.cap("m"), "a"))]),
+        A.stanza(q_id, [A.edge(A.svar(A.cap("id"), "a"), A.svar(A.cap("id"), "b"))]),
+        A.stanza("(module) @m ", [A.attre(A.svar(A.cap("m"), "a"), A.svar(A.cap("m"), "b"), A.attr("k", A.integer(1)))]),
+    ], inherit=["a", "b"]), 2, "lazy"))
     cases = []
     maxn = 3 if tier == "quick" else 4
     for c in base:
